@@ -7,8 +7,18 @@ and the trajectory formulas compute — the theorems are about *what they are gi
 The transcription itself is validated only by the snapshots of the correspondence harness.
 
 `apply` is the code after repair F8; `applyShipped` is the code before it.
+
+Second part (footprints): `Model/Footprint.lean`.  The read/write footprint of every real call is *recorded* from the
+running code (wrappers on `State` and on the model object) as a history of C01 state operations over state
+identities (0 = `model.state` when the call starts, k = k-th clone) plus model-level events.  The theorems below hold
+for every graph, every value type and every such history; the recorded history of each call is then decided by the
+same functions (`touchesOriginal`, `writesOriginal`, `analyse`, `verdict`) in `drivers/C13.lean`.  With them the
+read-set / write-set assumption of part (c) is discharged call by call (`footprint_refines_api`,
+`footprint_history_refines_api`): what remains trusted is that the recorder sees every event.
 -/
 import LeaspyVerif.Model.Api
+import LeaspyVerif.Lemmas.Footprint
+import LeaspyVerif.Props.C01
 
 namespace LeaspyVerif.C13
 open LeaspyVerif.Api
@@ -180,5 +190,445 @@ example :
     let r := (run symExt w0 [.fit "D" "1", .persoScipy "D2" "2", .save, .load, .persoScipy "D2" "2"]).2
     r[1]? = r[4]? ∧ r[1]? ≠ some none := by
   decide +kernel
+
+/-! ## Footprints recorded from the running code (`Model/Footprint.lean`) -/
+
+section footprint
+open LeaspyVerif.State LeaspyVerif.Footprint
+
+variable {M : Type}
+
+/-- one event: for the `State` operations this is C01's `step_other_states_untouched` -/
+private theorem stepEv_untouched (g : Graph V) (mix : M → V → V → V) (w : Footprint.World V) (e : Ev V M) (k : Nat)
+    (h : e.addresses k = false) : (stepEv g mix w e).store k = w.store k := by
+  cases e with
+  | op o =>
+    simp only [Ev.addresses, Bool.and_eq_false_imp, beq_iff_eq, Bool.not_eq_eq_eq_not, Bool.not_false] at h
+    simp only [stepEv]
+    cases o with
+    | isSet sid i => simp only [step]; cases w.store sid <;> rfl
+    | get sid i | set sid i v | put sid i t v | revert sid m | precompute sid | setMode sid m | clear sid =>
+      exact C01.step_other_states_untouched mix w.store _ k
+        (by intro e; exact absurd (h (by simp [target, e])) (by simp [isNeutral]))
+    | clone src dst a b =>
+      exact C01.step_other_states_untouched mix w.store _ k
+        (by intro e; exact absurd (h (by simp [target, e])) (by simp [isNeutral]))
+  | havoc _ _ | shared _ _ _ | bind _ | attr _ _ => exact stepEv_frame g mix w _ k h
+
+/-- **Frame.** A state that no event of the history addresses is, at the end, exactly what it was: values, cache,
+    pending fork and mode.  (Composition of C01's `step_other_states_untouched` along the history.) -/
+theorem footprint_frame (g : Graph V) (mix : M → V → V → V) (k : Nat) :
+    ∀ (h : List (Ev V M)) (w : Footprint.World V), (∀ e ∈ h, e.addresses k = false) →
+      (runEv g mix w h).store k = w.store k := by
+  intro h
+  induction h with
+  | nil => intro w _; rfl
+  | cons e h ih =>
+    intro w hh
+    simp only [runEv]
+    rw [ih _ (fun e' he' => hh e' (List.mem_cons_of_mem _ he'))]
+    exact stepEv_untouched g mix w e k (hh e (List.mem_cons_self ..))
+
+private theorem touches_false_iff (h : List (Ev V M)) :
+    touchesOriginal h = false ↔ ∀ e ∈ h, e.addresses 0 = false ∧ e.modelLevel = false := by
+  simp only [touchesOriginal, List.any_eq_false, Ev.touches0, Bool.or_eq_true, not_or, Bool.not_eq_true]
+
+/-- **Purity from the footprint.** When no event of the recorded history addresses the original state, re-binds the
+    model's state or writes a model attribute, the original state is unchanged *as a whole* — not only the independent
+    values but every cached derived value, the pending fork and the fork mode (nothing is left behind, not even in
+    the cache) — and the model still points to it, with the same attributes.  For every graph, every value type,
+    every history, any number of clones. -/
+theorem footprint_pure (g : Graph V) (mix : M → V → V → V) (h : List (Ev V M)) (w : Footprint.World V)
+    (ht : touchesOriginal h = false) :
+    (runEv g mix w h).store 0 = w.store 0 ∧ (runEv g mix w h).bound = w.bound
+      ∧ (runEv g mix w h).attrs = w.attrs := by
+  have hall := (touches_false_iff h).1 ht
+  refine ⟨footprint_frame g mix 0 h w (fun e he => (hall e he).1), ?_⟩
+  clear ht
+  induction h generalizing w with
+  | nil => exact ⟨rfl, rfl⟩
+  | cons e h ih =>
+    simp only [runEv]
+    obtain ⟨h1, h2⟩ := ih (stepEv g mix w e) (fun e' he' => hall e' (List.mem_cons_of_mem _ he'))
+    obtain ⟨h3, h4⟩ := stepEv_model_frame g mix w e (hall e (List.mem_cons_self ..)).2
+    exact ⟨h1.trans h3, h2.trans h4⟩
+
+private theorem writes_false_iff (h : List (Ev V M)) :
+    writesOriginal h = false ↔
+      ∀ e ∈ h, (e.addresses 0 = false ∨ e.readsOnly 0 = true) ∧ e.modelLevel = false := by
+  simp only [writesOriginal, List.any_eq_false, Ev.writes0]
+  constructor
+  · intro hh e he
+    have := hh e he
+    cases ha : e.addresses 0 <;> cases hr : e.readsOnly 0 <;> cases hm : e.modelLevel <;> simp_all
+  · intro hh e he
+    obtain ⟨h1, h2⟩ := hh e he
+    cases ha : e.addresses 0 <;> cases hr : e.readsOnly 0 <;> cases hm : e.modelLevel <;> simp_all
+
+/-- **Reads only.** When the only events addressing the original state are reads (`__getitem__` of a value that was
+    not cached, `precompute_all`), the original state keeps its pending fork, its mode, every independent value and
+    every value that was cached; the only possible change is that empty cache entries of derived variables get
+    filled.  Purely structural: no hypothesis on the graph or on the state. -/
+theorem footprint_reads_only (g : Graph V) (mix : M → V → V → V) (h : List (Ev V M)) (w : Footprint.World V) {s0 : St V}
+    (h0 : w.store 0 = some s0) (hw : writesOriginal h = false) :
+    ∃ s1, (runEv g mix w h).store 0 = some s1 ∧ s1.fork = s0.fork ∧ s1.mode = s0.mode
+      ∧ (∀ j, (g.kind j ≠ .linked ∨ s0.vals j ≠ none) → s1.vals j = s0.vals j)
+      ∧ (runEv g mix w h).bound = w.bound ∧ (runEv g mix w h).attrs = w.attrs := by
+  have hall := (writes_false_iff h).1 hw
+  clear hw
+  induction h generalizing w s0 with
+  | nil => exact ⟨s0, h0, rfl, rfl, fun _ _ => rfl, rfl, rfl⟩
+  | cons e h ih =>
+    simp only [runEv]
+    obtain ⟨hcase, hml⟩ := hall e (List.mem_cons_self ..)
+    obtain ⟨hb, hat⟩ := stepEv_model_frame g mix w e hml
+    have hstep : ∃ s', (stepEv g mix w e).store 0 = some s' ∧ s'.fork = s0.fork ∧ s'.mode = s0.mode ∧
+        ∀ j, (g.kind j ≠ .linked ∨ s0.vals j ≠ none) → s'.vals j = s0.vals j := by
+      rcases hcase with hc | hc
+      · exact ⟨s0, by rw [stepEv_frame g mix w e 0 hc]; exact h0, rfl, rfl, fun _ _ => rfl⟩
+      · exact stepEv_reads g mix w e 0 h0 hc
+    obtain ⟨s', hs', hf', hm', hv'⟩ := hstep
+    obtain ⟨s1, hs1, hf1, hm1, hv1, hb1, ha1⟩ :=
+      ih (stepEv g mix w e) hs' (fun e' he' => hall e' (List.mem_cons_of_mem _ he'))
+    refine ⟨s1, hs1, hf1.trans hf', hm1.trans hm', ?_, hb1.trans hb, ha1.trans hat⟩
+    intro j hj
+    have hj' : g.kind j ≠ .linked ∨ s'.vals j ≠ none := by
+      rcases hj with hj | hj
+      · exact Or.inl hj
+      · right; rw [hv' j (Or.inr hj)]; exact hj
+    rw [hv1 j hj', hv' j hj]
+
+private theorem read_event_inv {g : Graph V} (wf : WF g) (mix : M → V → V → V) (w : Footprint.World V) (e : Ev V M)
+    {s : St V} (hs : w.store 0 = some s) (hinv : Inv g s) (h : e.readsOnly 0 = true) :
+    ∃ s', (stepEv g mix w e).store 0 = some s' ∧ Inv g s' ∧ absS g s' = absS g s := by
+  cases e with
+  | op o =>
+    cases o with
+    | get sid i =>
+      simp only [Ev.readsOnly, target, isRead, Bool.and_true, beq_iff_eq] at h
+      subst h
+      refine ⟨(State.get g s i).1, by simp [stepEv, step, hs, Store.put], ?_⟩
+      by_cases hi : i < g.n
+      · exact ⟨(get_spec wf hinv hi).1, (get_spec wf hinv hi).2.1⟩
+      · have : State.get g s i = (s, .error .input) := by unfold State.get; simp [Nat.le_of_not_lt hi]
+        rw [this]; exact ⟨hinv, rfl⟩
+    | precompute sid =>
+      simp only [Ev.readsOnly, target, isRead, Bool.and_true, beq_iff_eq] at h
+      subst h
+      exact ⟨(precompute g s).1, by simp [stepEv, step, hs, Store.put], inv_precompute wf hinv⟩
+    | isSet _ _ | set _ _ _ | put _ _ _ _ | revert _ _ | clone _ _ _ _ | setMode _ _ | clear _ =>
+      simp [Ev.readsOnly, isRead] at h
+  | havoc _ _ | shared _ _ _ | bind _ | attr _ _ => simp [Ev.readsOnly] at h
+
+/-- **Composition with C01.** On a well-formed graph (every graph accepted by the DAG construction, C01
+    `wf_of_build`), starting from a consistent original state, a history that only reads the original state leaves it
+    consistent with *the same independent values*: whatever was filled into its cache is the from-scratch value, and
+    every later read of any variable answers exactly as it would have before the call (C01 `get_refines`). -/
+theorem footprint_reads_refine {g : Graph V} (wf : WF g) (mix : M → V → V → V) (h : List (Ev V M)) (w : Footprint.World V)
+    {s0 : St V} (h0 : w.store 0 = some s0) (hinv : Inv g s0) (hw : writesOriginal h = false) :
+    ∃ s1, (runEv g mix w h).store 0 = some s1 ∧ Inv g s1 ∧ absS g s1 = absS g s0
+      ∧ (∀ j < g.n, ∀ v, s1.vals j = some v → spec g (absS g s0) j = some v)
+      ∧ (∀ i < g.n, ReadOK g (absS g s0) i (State.get g s1 i).2) := by
+  have hall := (writes_false_iff h).1 hw
+  clear hw
+  have key : ∃ s1, (runEv g mix w h).store 0 = some s1 ∧ Inv g s1 ∧ absS g s1 = absS g s0 := by
+    induction h generalizing w s0 with
+    | nil => exact ⟨s0, h0, hinv, rfl⟩
+    | cons e h ih =>
+      simp only [runEv]
+      obtain ⟨hcase, _⟩ := hall e (List.mem_cons_self ..)
+      have hstep : ∃ s', (stepEv g mix w e).store 0 = some s' ∧ Inv g s' ∧ absS g s' = absS g s0 := by
+        rcases hcase with hc | hc
+        · exact ⟨s0, by rw [stepEv_frame g mix w e 0 hc]; exact h0, hinv, rfl⟩
+        · exact read_event_inv wf mix w e h0 hinv hc
+      obtain ⟨s', hs', hi', ha'⟩ := hstep
+      obtain ⟨s1, hs1, hi1, ha1⟩ := ih (stepEv g mix w e) hs' hi' (fun e' he' => hall e' (List.mem_cons_of_mem _ he'))
+      exact ⟨s1, hs1, hi1, ha1.trans ha'⟩
+  obtain ⟨s1, hs1, hi1, ha1⟩ := key
+  refine ⟨s1, hs1, hi1, ha1, ?_, ?_⟩
+  · intro j hj v hv
+    have := hi1.cons j hj v hv
+    rw [show absC g s1.vals = absS g s1 from rfl, ha1] at this
+    exact this
+  · intro i hi
+    have := (C01.get_refines wf hi1 hi).1
+    rw [ha1] at this
+    exact this
+
+/-- **A clone is isolated from its source** (C01 at the level of a call): right after `clone` the new state holds
+    the values of its source, and whatever the rest of the call does to the clone — or to any other state — the
+    source is exactly what it was. -/
+theorem clone_isolated (g : Graph V) (mix : M → V → V → V) (w : Footprint.World V) (src dst : Nat) (a b : Bool)
+    (h : List (Ev V M)) {s : St V} (hs : w.store src = some s) (hne : dst ≠ src)
+    (hh : ∀ e ∈ h, e.addresses src = false) :
+    (stepEv g mix w (.op (.clone src dst a b))).store dst = some (clone s a b)
+      ∧ (clone s a b).vals = s.vals
+      ∧ (runEv g mix (stepEv g mix w (.op (.clone src dst a b))) h).store src = some s := by
+  refine ⟨by simp [stepEv, step, hs, Store.put], rfl, ?_⟩
+  rw [footprint_frame g mix src h _ hh]
+  have : src ≠ dst := fun e => hne e.symm
+  simp [stepEv, step, hs, Store.put, this]
+
+private theorem nonLinked_spec {g : Graph V} {l : List Nat} (h : nonLinked g l = true) :
+    ∀ p ∈ l, g.kind p ≠ .linked := by
+  intro p hp
+  simp only [nonLinked, List.all_eq_true, bne_iff_ne, ne_eq] at h
+  exact h p hp
+
+/-- **Soundness of the footprint analysis** for the calls that do work on `model.state` and re-bind the model to a
+    clone (mean / mode posterior).  `P` is any set of independent variables.  If the abstract interpreter says that
+    the state bound to the model at the end is described by `a`, then that state exists and: when `a.same`, each
+    protected variable holds exactly what it held in the original state when the call started — whatever was
+    assigned, proposed and reverted on the original state and on any clone in between. -/
+theorem footprint_core_preserved (g : Graph V) (mix : M → V → V → V) (P : List Nat) (hP : nonLinked g P = true)
+    (h : List (Ev V M)) (w : Footprint.World V) {s0 : St V} (h0 : w.store 0 = some s0) (hb : w.bound = 0) {a : Abs}
+    (ha : (analyse g P Res.init h).abs.get (analyse g P Res.init h).bound = some a) (hsame : a.same = true) :
+    ∃ s1, (runEv g mix w h).store (runEv g mix w h).bound = some s1 ∧ ∀ p ∈ P, s1.vals p = s0.vals p := by
+  obtain ⟨hs, hbd, _⟩ := sound_analyse (nonLinked_spec hP) mix h Res.init w (sound_init g P h0 hb)
+  obtain ⟨s1, hs1, hok⟩ := hs _ a ha
+  exact ⟨s1, by rw [← hbd]; exact hs1, hok.1 hsame⟩
+
+/-- **Nothing left behind, from the footprint**: every variable the analysis lists as cleared for the state bound
+    to the model at the end is unset in it; and when no attribute write was recorded the model's other attributes
+    are what they were. -/
+theorem footprint_no_residual (g : Graph V) (mix : M → V → V → V) (P : List Nat) (hP : nonLinked g P = true)
+    (h : List (Ev V M)) (w : Footprint.World V) {s0 : St V} (h0 : w.store 0 = some s0) (hb : w.bound = 0) {a : Abs}
+    (ha : (analyse g P Res.init h).abs.get (analyse g P Res.init h).bound = some a) :
+    ∃ s1, (runEv g mix w h).store (runEv g mix w h).bound = some s1 ∧ (∀ r ∈ a.cleared, s1.vals r = none)
+      ∧ ((analyse g P Res.init h).attrsWritten = false → (runEv g mix w h).attrs = w.attrs) := by
+  obtain ⟨hs, hbd, hat⟩ := sound_analyse (nonLinked_spec hP) mix h Res.init w (sound_init g P h0 hb)
+  obtain ⟨s1, hs1, hok⟩ := hs _ a ha
+  exact ⟨s1, by rw [← hbd]; exact hs1, fun r hr => (hok.2.2 r hr).2, hat⟩
+
+private theorem objOf_congr (c : Classes) {s s' : St V} (hp : ∀ p ∈ c.prot, s'.vals p = s.vals p)
+    (hr : ∀ r ∈ c.resid, s'.vals r = s.vals r) : objOf c s' = objOf c s := by
+  have e1 : c.params.map s'.vals = c.params.map s.vals :=
+    List.map_congr_left (fun p hp' => hp p (by simp [Classes.prot, hp']))
+  have e2 : c.hyper.map s'.vals = c.hyper.map s.vals :=
+    List.map_congr_left (fun p hp' => hp p (by simp [Classes.prot, hp']))
+  have e3 : c.pop.map s'.vals = c.pop.map s.vals :=
+    List.map_congr_left (fun p hp' => hp p (by simp [Classes.prot, hp']))
+  have e4 : c.data.map s'.vals = c.data.map s.vals :=
+    List.map_congr_left (fun p hp' => hr p (by simp [Classes.resid, hp']))
+  have e5 : c.ind.map s'.vals = c.ind.map s.vals :=
+    List.map_congr_left (fun p hp' => hr p (by simp [Classes.resid, hp']))
+  have e6 : c.resid.all (fun i => (s'.vals i).isNone) = c.resid.all (fun i => (s.vals i).isNone) := by
+    rw [List.all_eq, List.all_eq]
+    exact decide_eq_decide.2 ⟨fun h i hi => by rw [← hr i hi]; exact h i hi, fun h i hi => by rw [hr i hi]; exact h i hi⟩
+  simp only [objOf, e1, e2, e3, e4, e5, e6]
+
+private theorem objOf_cleared (c : Classes) {s s' : St V} (hp : ∀ p ∈ c.prot, s'.vals p = s.vals p)
+    (hr : ∀ r ∈ c.resid, s'.vals r = none) : objOf c s' = { objOf c s with residual := none } := by
+  have e1 : c.params.map s'.vals = c.params.map s.vals :=
+    List.map_congr_left (fun p hp' => hp p (by simp [Classes.prot, hp']))
+  have e2 : c.hyper.map s'.vals = c.hyper.map s.vals :=
+    List.map_congr_left (fun p hp' => hp p (by simp [Classes.prot, hp']))
+  have e3 : c.pop.map s'.vals = c.pop.map s.vals :=
+    List.map_congr_left (fun p hp' => hp p (by simp [Classes.prot, hp']))
+  have e6 : c.resid.all (fun i => (s'.vals i).isNone) = true := by
+    simp only [List.all_eq_true]
+    intro i hi; rw [hr i hi]; rfl
+  simp only [objOf, e1, e2, e3, e6, if_true]
+
+/-- **Bridge to the read/write abstraction of `Model/Api.lean` (c).**  For a call whose recorded footprint passes
+    the verdict of its kind, the object the model stands for after the real call (read off the state the model is
+    bound to) is exactly the object `Api.apply` computes — for every choice of the numerical kernels `E`.  The
+    transcription "estimate / scipy_minimize / simulate leave the object as it is; mean / mode posterior keep
+    parameters, hyper-parameters and population variables and drop what a fit left" is thereby *derived* from the
+    recorded history instead of assumed. -/
+theorem footprint_refines_api (E : Ext (List (Option V))) (g : Graph V) (mix : M → V → V → V) (c : Classes)
+    (call : Call (List (Option V))) (h : List (Ev V M)) (w : Footprint.World V) {s0 : St V} (h0 : w.store 0 = some s0)
+    (hb : w.bound = 0) (file : Option (List (Option V) × List (Option V)))
+    (hv : verdict g c call h = true) :
+    ∃ s1, (runEv g mix w h).store (runEv g mix w h).bound = some s1 ∧ (runEv g mix w h).attrs = w.attrs
+      ∧ (Api.apply E ⟨objOf c s0, file⟩ call).1 = ⟨objOf c s1, file⟩ := by
+  have pure_case : pureVerdict g c h = true →
+      ∃ s1, (runEv g mix w h).store (runEv g mix w h).bound = some s1 ∧ (runEv g mix w h).attrs = w.attrs
+        ∧ objOf c s1 = objOf c s0 := by
+    intro hp
+    simp only [pureVerdict, Bool.and_eq_true, Bool.not_eq_eq_eq_not, Bool.not_true] at hp
+    obtain ⟨s1, hs1, _, _, hv1, hb1, ha1⟩ := footprint_reads_only g mix h w h0 hp.1
+    have hnl := nonLinked_spec hp.2
+    refine ⟨s1, by rw [hb1, hb]; exact hs1, ha1, ?_⟩
+    exact objOf_congr c (fun p hp' => hv1 p (Or.inl (hnl p (by simp [hp']))))
+      (fun p hp' => hv1 p (Or.inl (hnl p (by simp [hp']))))
+  have mcmc_case : mcmcVerdict g c h = true →
+      ∃ s1, (runEv g mix w h).store (runEv g mix w h).bound = some s1 ∧ (runEv g mix w h).attrs = w.attrs
+        ∧ objOf c s1 = { objOf c s0 with residual := none } := by
+    intro hm
+    simp only [mcmcVerdict, Bool.and_eq_true, Bool.not_eq_eq_eq_not, Bool.not_true] at hm
+    obtain ⟨⟨hnl, hattr⟩, hget⟩ := hm
+    cases hga : (analyse g c.prot Res.init h).abs.get (analyse g c.prot Res.init h).bound with
+    | none => rw [hga] at hget; cases hget
+    | some a =>
+      rw [hga] at hget
+      simp only [Bool.and_eq_true, List.all_eq_true, List.contains_iff_mem] at hget
+      obtain ⟨hs, hbd, hat⟩ := sound_analyse (nonLinked_spec hnl) mix h Res.init w (sound_init g c.prot h0 hb)
+      obtain ⟨s1, hs1, hok⟩ := hs _ a hga
+      refine ⟨s1, by rw [← hbd]; exact hs1, hat hattr, ?_⟩
+      exact objOf_cleared c (hok.1 hget.1) (fun r hr => (hok.2.2 r (by simpa using hget.2 r hr)).2)
+  cases call with
+  | estimate i =>
+    obtain ⟨s1, h1, h2, h3⟩ := pure_case hv
+    exact ⟨s1, h1, h2, by simp [Api.apply, applyGen, h3]⟩
+  | persoScipy d s =>
+    obtain ⟨s1, h1, h2, h3⟩ := pure_case hv
+    exact ⟨s1, h1, h2, by simp [Api.apply, applyGen, h3]⟩
+  | simulate d s =>
+    obtain ⟨s1, h1, h2, h3⟩ := pure_case hv
+    exact ⟨s1, h1, h2, by simp [Api.apply, applyGen, h3]⟩
+  | persoMean d s =>
+    obtain ⟨s1, h1, h2, h3⟩ := mcmc_case hv
+    exact ⟨s1, h1, h2, by simp [Api.apply, applyGen, h3]⟩
+  | persoMode d s =>
+    obtain ⟨s1, h1, h2, h3⟩ := mcmc_case hv
+    exact ⟨s1, h1, h2, by simp [Api.apply, applyGen, h3]⟩
+  | fit d s => simp [verdict] at hv
+  | save => simp [verdict] at hv
+  | load => simp [verdict] at hv
+
+/-- **Whole histories.**  A sequence of recorded calls, each with a footprint passing its verdict (between two
+    calls the state the model is bound to becomes state 0 of the next recording): the object the model stands for at
+    the end is the one `Api.run` computes, and the model's other attributes never moved. -/
+theorem footprint_history_refines_api (E : Ext (List (Option V))) (g : Graph V) (mix : M → V → V → V)
+    (c : Classes) :
+    ∀ (calls : List (Call (List (Option V)) × List (Ev V M))) (w : Footprint.World V) (s0 : St V)
+      (file : Option (List (Option V) × List (Option V))),
+      w.store 0 = some s0 → w.bound = 0 → (∀ p ∈ calls, verdict g c p.1 p.2 = true) →
+      ∃ s1, (runCalls g mix w calls).store 0 = some s1 ∧ (runCalls g mix w calls).bound = 0
+        ∧ (runCalls g mix w calls).attrs = w.attrs
+        ∧ (Api.run E ⟨objOf c s0, file⟩ (calls.map Prod.fst)).1 = ⟨objOf c s1, file⟩ := by
+  intro calls
+  induction calls with
+  | nil => intro w s0 file h0 hb _; exact ⟨s0, h0, hb, rfl, rfl⟩
+  | cons p calls ih =>
+    intro w s0 file h0 hb hall
+    obtain ⟨s', hs', hat', hap'⟩ :=
+      footprint_refines_api E g mix c p.1 p.2 w h0 hb file (hall p (List.mem_cons_self ..))
+    have h0' : (rebase (runEv g mix w p.2)).store 0 = some s' := by simp [rebase, hs']
+    obtain ⟨s1, hs1, hb1, hat1, hrun1⟩ :=
+      ih (rebase (runEv g mix w p.2)) s' file h0' rfl (fun q hq => hall q (List.mem_cons_of_mem _ hq))
+    refine ⟨s1, hs1, hb1, by simp only [runCalls]; rw [hat1]; exact hat', ?_⟩
+    simp only [List.map_cons, Api.run, runGen]
+    simp only [Api.apply] at hap'
+    rw [hap']
+    exact hrun1
+
+private theorem verdict_readOnly {g : Graph V} {c : Classes} {call : Call (List (Option V))} {h : List (Ev V M)}
+    (hv : verdict g c call h = true) : Call.readOnly call = true ∧ call.isFit = false := by
+  cases call <;> simp [verdict] at hv <;> simp [Call.readOnly, Call.isFit]
+
+/-- **The existing conclusions without the footprint assumption.**  Along any history of recorded calls whose
+    footprints pass their verdicts, the parameters, hyper-parameters and population variables *of the real state the
+    model is bound to* are those it started with, and the data / individual values stored in it are gone or
+    unchanged — `core_preserved_history` and `no_residual_added`, transported through
+    `footprint_history_refines_api`. -/
+theorem footprint_history_preserves (g : Graph V) (mix : M → V → V → V) (c : Classes)
+    (calls : List (Call (List (Option V)) × List (Ev V M))) (w : Footprint.World V) (s0 : St V)
+    (h0 : w.store 0 = some s0) (hb : w.bound = 0) (hall : ∀ p ∈ calls, verdict g c p.1 p.2 = true) :
+    ∃ s1, (runCalls g mix w calls).store 0 = some s1
+      ∧ (objOf c s1).core = (objOf c s0).core
+      ∧ ((objOf c s1).residual = none ∨ (objOf c s1).residual = (objOf c s0).residual)
+      ∧ (runCalls g mix w calls).attrs = w.attrs := by
+  let E : Ext (List (Option V)) :=
+    { priorMode := id, start := fun _ _ _ x => x, saem := fun _ p _ l _ _ => (p, l), traj := fun _ _ _ x => x,
+      mcmc := fun _ _ _ _ _ x => x, optimise := fun _ _ _ _ x => x, firstRow := id, sim := fun _ _ _ _ x => x }
+  obtain ⟨s1, hs1, _, hat, hrun⟩ := footprint_history_refines_api E g mix c calls w s0 none h0 hb hall
+  have hro : ∀ cl ∈ calls.map Prod.fst, Call.readOnly cl = true := by
+    intro cl hcl
+    obtain ⟨p, hp, rfl⟩ := List.mem_map.1 hcl
+    exact (verdict_readOnly (hall p hp)).1
+  have hnf : ∀ cl ∈ calls.map Prod.fst, cl.isFit = false := by
+    intro cl hcl
+    obtain ⟨p, hp, rfl⟩ := List.mem_map.1 hcl
+    exact (verdict_readOnly (hall p hp)).2
+  have h1 := core_preserved_history E (calls.map Prod.fst) ⟨objOf c s0, none⟩ hro
+  have h2 := no_residual_added E (calls.map Prod.fst) ⟨objOf c s0, none⟩ hnf
+  rw [hrun] at h1 h2
+  exact ⟨s1, hs1, h1, h2, hat⟩
+
+/-! ### witnesses on a three-node graph: parameter `0`, individual variable `1`, derived `2 = 0 + 1` -/
+
+private def toyG : Graph Nat :=
+  { n := 3
+    kind := fun i => if i = 2 then .linked else .indep true
+    parents := fun i => if i = 2 then [0, 1] else []
+    fn := fun _ ps => ps.foldl (· + ·) 0
+    init := fun _ => none
+    order := [0, 1, 2]
+    desc := fun i => if i = 0 ∨ i = 1 then [2] else []
+    anc := fun i => if i = 2 then [0, 1] else [] }
+
+private def toyMix : Unit → Nat → Nat → Nat := fun _ o _ => o
+
+/-- a fitted model: parameter 10, leftover individual value 7, derived value cached, fork mode on -/
+private def toyW : Footprint.World Nat :=
+  { store := fun k => if k = 0 then
+      some { vals := fun i => if i = 0 then some 10 else if i = 1 then some 7 else if i = 2 then some 17 else none
+             fork := none, mode := true } else none
+    bound := 0
+    attrs := fun _ => none }
+
+private def valsAt (w : Footprint.World Nat) (sid : Nat) : List (Option Nat) :=
+  match w.store sid with
+  | some s => [s.vals 0, s.vals 1, s.vals 2]
+  | none => []
+
+/- Full-strength statement without the hypothesis of `footprint_pure`:
+
+   | theorem footprint_pure_any_history : ∀ h, (runEv g mix w h).store 0 = w.store 0
+
+   It is false: a history that writes through state 0 changes it. -/
+
+/-- A call that proposes an individual value *on `model.state` itself* and leaves it there (what a personalisation
+    running on the model's own state does when it does not install a cleaned clone): the footprint touches the
+    original, and the original has changed — the individual value and the invalidated derived value. -/
+theorem footprint_pure_counterexample :
+    let h : List (Ev Nat Unit) := [.op (.set 0 1 (some 8))]
+    touchesOriginal h = true ∧ writesOriginal h = true
+      ∧ valsAt (runEv toyG toyMix toyW h) 0 = [some 10, some 8, none]
+      ∧ valsAt toyW 0 = [some 10, some 7, some 17] := by
+  decide
+
+/- Full-strength statement one might hope for (false, finding F8):
+
+   | theorem untouching_footprint_forgets_leftovers : touchesOriginal h = false → the values a clone works with do
+   |   not depend on the data / individual values a fit left in state 0
+
+   A clone starts with everything its source holds. -/
+
+/-- F8 at the level of footprints: the shipped `scipy_minimize` (clone, then `put_individual_parameters`, which keeps
+    individual values that are set) has an untouching footprint, yet the clone works with the individual value the
+    fit left in the model (7); the repaired code unsets it on the clone first.  Both leave the original untouched:
+    purity of the footprint is about what a call *writes*, independence of the leftovers
+    (`result_independent_of_residual`) about what it *reads*. -/
+theorem untouching_footprint_keeps_leftovers_counterexample :
+    let shipped : List (Ev Nat Unit) := [.op (.clone 0 1 true false), .op (.isSet 1 1)]
+    let fixed : List (Ev Nat Unit) := [.op (.clone 0 1 true false), .op (.set 1 1 none), .op (.isSet 1 1)]
+    touchesOriginal shipped = false ∧ touchesOriginal fixed = false
+      ∧ valsAt (runEv toyG toyMix toyW shipped) 1 = [some 10, some 7, some 17]
+      ∧ valsAt (runEv toyG toyMix toyW fixed) 1 = [some 10, none, none]
+      ∧ valsAt (runEv toyG toyMix toyW shipped) 0 = valsAt toyW 0
+      ∧ valsAt (runEv toyG toyMix toyW fixed) 0 = valsAt toyW 0 := by
+  decide
+
+/-- Non-vacuity of the analysis: the shape of a recorded mean / mode posterior call — data and individual values
+    assigned on `model.state`, a proposal, reads, a partial revert, then a cleaned clone bound to the model — touches
+    the original (so `footprint_pure` does not apply) and passes the verdict of its kind; the same history with the
+    parameter overwritten on the way does not. -/
+example :
+    let cls : Classes := { params := [0], hyper := [], pop := [], data := [], ind := [1] }
+    let good : List (Ev Nat Unit) :=
+      [.op (.setMode 0 false), .op (.set 0 1 (some 3)), .op (.setMode 0 true), .op (.get 0 2), .op (.set 0 1 (some 4)),
+       .op (.get 0 2), .op (.revert 0 (some ())), .op (.clone 0 1 false false), .op (.setMode 1 false),
+       .op (.set 1 1 none), .op (.setMode 1 true), .bind 1]
+    let bad : List (Ev Nat Unit) := .op (.set 0 0 (some 11)) :: good
+    touchesOriginal good = true ∧ mcmcVerdict toyG cls good = true ∧ mcmcVerdict toyG cls bad = false
+      ∧ valsAt (runEv toyG toyMix toyW good) 1 = [some 10, none, none]
+      ∧ pureVerdict toyG cls [(.op (.clone 0 1 true false) : Ev Nat Unit), .op (.set 1 1 (some 2)), .op (.get 0 2)] = true := by
+  decide
+
+end footprint
+
 
 end LeaspyVerif.C13
